@@ -208,6 +208,19 @@ impl DatagramState {
     }
 }
 
+#[cfg(feature = "quinn_rs_quinn_verif")]
+impl DatagramState {
+    /// Verification hook: the private admission predicate itself
+    pub(super) fn verif_has_send_buffer_space(&self, len: usize, size: usize) -> bool {
+        self.has_send_buffer_space(len, size)
+    }
+
+    /// Verification hook: the private eviction loop itself
+    pub(super) fn verif_make_space_for(&mut self, len: usize, size: usize) {
+        self.make_space_for(len, size)
+    }
+}
+
 #[cfg(test)]
 mod tests {
     use super::*;
